@@ -7,7 +7,9 @@
 (*   - the return code is one the model permits for that call,               *)
 (*   - the complete read-back record equals the model's record afterwards    *)
 (*     (a rejected call, a reset, an encode or decode call leave it alone),  *)
-(*   - the TOC of a produced packet honours the settings in force.           *)
+(*   - the TOC of a produced packet honours the settings in force; its       *)
+(*     duration is the requested one for each of the three PCM entry points  *)
+(*     (16 bit, 24 bit, float) and every length of the caller's buffer.      *)
 (* A trace is a concatenation of executions; each starts with a "create"     *)
 (* event.  A rejected event is printed (REJECTED_AT, WHY) and validation      *)
 (* resumes at the next execution, so one pass reports every rejection.        *)
@@ -51,7 +53,11 @@ DecSignalSane(g) == /\ g.nok = 0 /\ g.bw \in {0} \cup BwSet /\ g.lpd >= 0 /\ g.p
 (*  4 BandwidthHonoured binds below Nyquist  5 LowDelayIsCelt binds  6 ShortFramesAreCelt binds *)
 (*  7 setter applied  8 request refused  9 SettingsUntouched compared  10 objects created       *)
 (*  11 creations refused  12 allocation failures                                               *)
-NCnt == 12
+(*  13/14/15 DurationHonoured binds with a requested duration SHORTER than the caller's buffer,  *)
+(*  through the 16-bit / 24-bit / float entry point   16 the same on a multistream object        *)
+(*  17 ChannelsHonoured binds on the first audio packet after OPUS_RESET_STATE                   *)
+(*  18 an encode call refused because the buffer is shorter than the requested duration          *)
+NCnt == 18
 Zero == [i \in 1..NCnt |-> 0]
 One(i) == [Zero EXCEPT ![i] = 1]
 B2N(b) == IF b THEN 1 ELSE 0
@@ -84,7 +90,7 @@ EncCreate(e) ==
         S0 == IF e.g.br = ResolveBitrate(S1, 0) THEN S1 ELSE [S1 EXCEPT !.bitrate = e.g.br] IN
     IF ~(EncSignalSane(e.g) /\ e.g.app = e.app /\ e.g.sr = e.Fs /\ DomainsHold(S0))
     THEN Rej(<<"CreateReadBack", e.g>>)
-    ELSE GoodD([o |-> "enc", S |-> S0, G |-> [InitG EXCEPT !.voiceRatio = e.g.vr]],
+    ELSE GoodD([o |-> "enc", S |-> S0, G |-> [InitG EXCEPT !.voiceRatio = e.g.vr], rs |-> FALSE],
                IF S0 = InitS(e.Fs, e.ch, e.app) /\ e.g.first = 1 /\ e.g.pfs = 0 THEN <<>>
                ELSE <<"defaults", DiffKeys(S0, InitS(e.Fs, e.ch, e.app))>>))
 
@@ -115,26 +121,40 @@ EncCtlOutcome(s, e, outs, rejectClause) ==
        ELSE IF e.g.vr # o.G.voiceRatio THEN Rej(<<IF e.r = OK THEN "GetterReports" ELSE rejectClause, {"vr"}>>)
        ELSE GoodC([s EXCEPT !.S = o.S, !.G = o.G], CtlDrift(s, e), IF e.r = OK THEN One(7) ELSE One(8))
 
+\* the PCM entry points of an encode call: 0 = 16 bit, 1 = 24 bit, 2 = float
+EntryPoints == {0, 1, 2}
+
 EncEncode(s, e) ==
   LET S == s.S  G == s.G
+      \* e.fs is the length of the caller's buffer (samples per channel)
       nS == FrameSizeSelect(e.fs, S.frameDuration, S.Fs)
       pr == IF e.r > 0 THEN Parse([hdr |-> e.h, len |-> e.r, fill |-> 0], FALSE) ELSE [ok |-> FALSE] IN
-  IF e.r > 0 /\ ~pr.ok THEN Rej(<<"DurationMatches", "packet does not parse">>)
+  IF e.ep \notin EntryPoints THEN Rej(<<"UnknownEvent", "entry point", e.ep>>)
+  ELSE IF e.r > 0 /\ ~pr.ok THEN Rej(<<"DurationHonoured", "packet does not parse">>)
   ELSE LET p == IF e.r > 0 THEN PktAttr(pr, S.Fs) ELSE [audio |-> FALSE, fsz |-> 0]
            failed == IF e.r > 0
                      THEN {i \in 1..6 : ~EncodeObligations(S, G, nS, p)[i][2]} ELSE {}
+           \* the requested duration the harness read before the call is the model's; the packet's duration is the
+           \* selected one, by Framing!Parse and by the library's own count - for every entry point and buffer length
+           durOK == /\ e.rd = S.frameDuration
+                    /\ (e.r > 0 /\ NonDtx(S, p)) => DurationHonoured(S, e.fs, p, e.ns)
            \* ghost: the model's bookkeeping with the hook-observed signal state
            G2 == [G EXCEPT !.started = TRUE, !.first = (e.g.first = 1), !.pfs = e.g.pfs,
                            !.voiceRatio = e.g.vr,
                            !.fcAge = IF e.r > 0 /\ p.audio THEN Min(2, G.fcAge + 1) ELSE G.fcAge]
            d == RecCheck("SettingsUntouched", EncRecord(S, G2), Restrict(e.g, EncKeys)) IN
-       IF failed # {} THEN Rej(<<EncodeObligations(S, G, nS, p)[CHOOSE i \in failed : TRUE][1], e.h[1], p>>)
+       IF ~durOK THEN Rej(<<"DurationHonoured", [ep |-> e.ep, requested |-> e.rd, modelRequested |-> S.frameDuration,
+                                                  buffer |-> e.fs, selected |-> nS, libSamples |-> e.ns,
+                                                  parsedSamples |-> IF e.r > 0 THEN p.samples ELSE 0]>>)
+       ELSE IF failed # {} THEN Rej(<<EncodeObligations(S, G, nS, p)[CHOOSE i \in failed : TRUE][1], e.h[1], p>>)
        ELSE IF ~EncSignalSane(e.g) THEN Rej(<<"GettersAnswer", e.g>>)
        ELSE IF d # <<>> THEN Rej(d)
-       ELSE GoodC([s EXCEPT !.G = G2],
-                  IF G2 \in EncGhostAfterEncode(S, G, e.r, p, {e.g.vr}) THEN <<>>
-                  ELSE <<"ghost after encode", e.g.first, e.g.pfs>>,
-                  LET a == e.r > 0 /\ p.audio IN
+       ELSE GoodC([s EXCEPT !.G = G2, !.rs = IF e.r > 0 /\ p.audio THEN FALSE ELSE @],
+                  (IF G2 \in EncGhostAfterEncode(S, G, e.r, p, {e.g.vr}) THEN <<>>
+                   ELSE <<"ghost after encode", e.g.first, e.g.pfs>>)
+                  \o (IF nS = -1 /\ e.r # BAD_ARG /\ e.r <= 0 THEN <<"refused frame size reported as", e.r>> ELSE <<>>),
+                  LET a == e.r > 0 /\ p.audio
+                      longer == e.r > 0 /\ NonDtx(S, p) /\ S.frameDuration # FRAMESIZE_ARG /\ nS > 0 /\ e.fs > nS IN
                   [i \in 1..NCnt |->
                      CASE i = 1 -> B2N(a)
                        [] i = 2 -> B2N(a /\ S.forceChannels # OPUS_AUTO /\ G.fcFromStart /\ S.channels = 2)
@@ -143,6 +163,12 @@ EncEncode(s, e) ==
                        [] i = 5 -> B2N(a /\ S.application = APP_LOWDELAY)
                        [] i = 6 -> B2N(e.r > 0 /\ NonDtx(S, p) /\ nS > 0 /\ nS < S.Fs \div 100)
                        [] i = 9 -> 1
+                       [] i = 13 -> B2N(longer /\ e.ep = 0)
+                       [] i = 14 -> B2N(longer /\ e.ep = 1)
+                       [] i = 15 -> B2N(longer /\ e.ep = 2)
+                       [] i = 17 -> B2N(a /\ s.rs /\ S.forceChannels # OPUS_AUTO /\ G.fcFromStart /\ S.channels = 2)
+                       [] i = 18 -> B2N(e.r = BAD_ARG /\ S.frameDuration # FRAMESIZE_ARG /\ e.fs >= S.Fs \div 400
+                                        /\ e.fs < DurSamples(S.frameDuration, S.Fs))
                        [] OTHER -> 0])
 
 EncEvent(s, e) ==
@@ -155,7 +181,7 @@ EncEvent(s, e) ==
                           IF e.r # OK THEN Rej(<<"ReturnCode", e.r, {OK}>>)
                           ELSE IF ~EncSignalSane(e.g) THEN Rej(<<"GettersAnswer", e.g>>)
                           ELSE IF d # <<>> THEN Rej(d)
-                          ELSE GoodD([s EXCEPT !.G = o.G],
+                          ELSE GoodD([s EXCEPT !.G = o.G, !.rs = TRUE],
                                      IF e.g.first = 1 /\ e.g.pfs = 0 THEN <<>> ELSE <<"reset signal state", e.g.first, e.g.pfs>>)
     [] e.k = "enc"     -> EncEncode(s, e)
     [] OTHER           -> Rej(<<"UnknownEvent", e.k>>)
@@ -235,6 +261,12 @@ MsStreamsCheck(clause, SS, GG, e, free) ==
   ELSE LET i == CHOOSE i \in bad : TRUE IN
        <<clause, i - 1, DiffKeys(Restrict(EncRecord(SS[i], GG[i]), EncKeys \ free), Restrict(e.ss[i], EncKeys \ free))>>
 
+\* the frame duration is kept at the multistream level and selects the frame size of every stream; the harness
+\* reports the duration of the first stream's packet (opus_packet_get_nb_samples).  Not asserted with DTX on.
+MsDurOK(s, e) ==
+  /\ e.rd = s.M.frameDuration
+  /\ (e.r > 0 /\ s.SS[1].dtx = 0) => e.ns = FrameSizeSelect(e.fs, s.M.frameDuration, s.SS[1].Fs)
+
 MsEncEvent(s, e) ==
   LET n == Len(s.SS) IN
   IF Len(e.ss) # n THEN Rej(<<"StreamCount", Len(e.ss)>>)
@@ -275,10 +307,15 @@ MsEncEvent(s, e) ==
              SS2 == [i \in 1..n |-> [s.SS[i] EXCEPT !.bitrate = IF e.ss[i].br = ResolveBitrate(s.SS[i], GG2[i].pfs) THEN @ ELSE e.ss[i].br,
                                         !.forceChannels = IF "fc" \in free THEN e.ss[i].fc ELSE @,
                                         !.forcedMode = IF "fm" \in free THEN e.ss[i].fm ELSE @]] IN
-         IF d # <<>> THEN Rej(d)
+         IF e.ep \notin EntryPoints THEN Rej(<<"UnknownEvent", "entry point", e.ep>>)
+         ELSE IF ~MsDurOK(s, e) THEN Rej(<<"DurationHonoured", [ep |-> e.ep, requested |-> e.rd, modelRequested |-> s.M.frameDuration,
+                                                              buffer |-> e.fs, libSamples |-> e.ns,
+                                                              selected |-> FrameSizeSelect(e.fs, s.M.frameDuration, s.SS[1].Fs)]>>)
+         ELSE IF d # <<>> THEN Rej(d)
          ELSE IF \E i \in 1..n : ~DomainsHold(SS2[i]) THEN Rej(<<"SettingsUntouched", "stream left its domain">>)
          ELSE IF ~MsForward(e, SS2, GG2, s.M) THEN Rej(<<"SettingsUntouched", "ms", e.m>>)
-         ELSE GoodC([s EXCEPT !.SS = SS2, !.GG = GG2], <<>>, One(9))
+         ELSE GoodC([s EXCEPT !.SS = SS2, !.GG = GG2], <<>>,
+                    [One(9) EXCEPT ![16] = B2N(e.r > 0 /\ s.SS[1].dtx = 0 /\ s.M.frameDuration # FRAMESIZE_ARG /\ e.fs > e.ns)])
     [] OTHER -> Rej(<<"UnknownEvent", e.k>>)
 
 -----------------------------------------------------------------------------
